@@ -105,3 +105,18 @@ def universe_failure(run, prop, e):
     """The generated module cannot be loaded: a violation of the property whose observation point is the generated code."""
     run.absorb(0, {'outcome': 'universe-' + e.phase, 'viol': [viol('universe:%s' % e.phase,
                'the packed universe spec could not be %sd: %s' % (e.phase, e.detail[-600:]), {'specs': e.specs}, e.detail)]})
+
+
+def json_kind(doc):
+    """Coarse kind of a JSON document, used only to label outcome classes (vacuity indicator)."""
+    if isinstance(doc, dict):
+        return 'tagged-object' if '.tag' in doc else 'object'
+    if isinstance(doc, (list, tuple)):
+        return 'array'
+    if doc is None:
+        return 'null'
+    if isinstance(doc, bool):
+        return 'boolean'
+    if isinstance(doc, (int, float)):
+        return 'number'
+    return 'string'
